@@ -68,6 +68,12 @@ def render_doc(d, rng):
                 parts.append(src)
             if rng.random() < 0.4:          # sibling order inside the message element must not matter either
                 rng.shuffle(parts)
+            # repeated blocks come after the first of their kind
+            t2 = {"story": "<element_target><storyID>S4</storyID></element_target>",
+                  "storyitem": "<element_target><storyID>S4</storyID><itemID>I4</itemID></element_target>"}.get(k.get("tgt2"))
+            s2 = {"storyID": "<element_source><storyID>S5</storyID></element_source>",
+                  "itemID": "<element_source><itemID>I5</itemID></element_source>"}.get(k.get("src2"))
+            parts += [x for x in (t2, s2) if x]
             return "<roElementAction%s>%s</roElementAction>" % (attr, nl.join(parts))
         if tag in ("mosID", "ncsID", "aaa", "zzz"):
             return "<%s>some %s text</%s>" % (tag, tag, tag)
